@@ -30,8 +30,28 @@
 //     constructor family); a (target, family) in which nothing at all is accepted is reported as
 //     C18/vacuity/<target>/<family>.
 //   - Observations that disagree inside a packed program are confirmed on a program of their
-//     own for the first confirmCap cases of every (target, phase, store kind) class; the rest
-//     are reported from the packed run (counter failing_cases_observed_in_pack_only).
+//     own (built by the real `ferret` binary) for the first confirmCap cases of every (target,
+//     phase, store kind) class; the rest are reported from the packed run (counter
+//     failing_cases_observed_in_pack_only).
+//   - Cost. The compiler needs 5-10 ms of CPU per source line (front end, super-linear in the
+//     size of a program) plus ~0.6 s per process, so the type sets are far below DESIGN's 1.2 k /
+//     15 k types: quick 197 types (1.3 k cases per target), thorough 931 types (6.8 k cases per
+//     target); see Coverage.Bound for the exact grammar. Every type gets the "lean" case set (each
+//     phase of the property once, all store kinds together, components printed through a
+//     per-type `show(x: T)` function, which also exercises passing the value), a few small types
+//     additionally the "fine" set (one case per store target / store kind, printed inline).
+//     Phases of one type share their declarations inside a packed program. Native programs are
+//     built by the real binary; wasm programs by the compiler's own pipeline in worker
+//     processes (fe pool, no process start per program) and run under node with the shipped
+//     runtime.js; children run with GOMAXPROCS=1 (GC threads thrash on a loaded machine).
+//   - A wasm module that cannot be instantiated because runtime.js lacks an import (i128
+//     literals: ferret_i128_from_string_ptr) counts as rejected by the target (nothing ran).
+//   - A time-out is re-observed alone with a 60 s limit; a second time-out is counted
+//     (timeouts_not_judged), not raised.
+//   - The internal budget stops new packs at 112 s (quick) / 17 min (thorough); packs are
+//     ordered breadth first over (depth, phase group, optional-ness, i128, root constructor), so a
+//     stopped run (exhaustive=false) has still touched every class; vacuity is raised only by a
+//     run that was not stopped.
 package c18
 
 import (
